@@ -72,6 +72,30 @@ theorem toStrD_spec (d : Data) (hd : d.cmpShape) :
 theorem argValues_spec (d : Data) (hd : d.cmpShape) : argValues d = (dataVal d).toList := by
   cases d <;> simp_all [argValues, dataVal, Data.cmpShape]
 
+theorem unDouble_plain : ∀ (s : Str), '\\' ∉ s → unDouble s = s
+  | [], _ => rfl
+  | [c], h => by
+    have hc : c ≠ '\\' := fun e => h (by simp [e])
+    simp [unDouble]
+  | c :: d :: r, h => by
+    have hc : c ≠ '\\' := fun e => h (by simp [e])
+    have ih := unDouble_plain (d :: r) (fun hm => h (List.mem_cons_of_mem _ hm))
+    unfold unDouble
+    split
+    · rename_i heq; injection heq with h1 _; exact absurd h1 hc
+    · rename_i heq; injection heq with h1 h2; subst h1; subst h2; rw [ih]
+    · rename_i heq; cases heq
+
+/-- shape of a pattern operand: a computed string value carries no backslash -/
+def Data.patShape : Data → Prop
+  | .value (.str s) => '\\' ∉ s
+  | _ => True
+
+theorem toPatD_of_patShape (d : Data) (h : d.patShape) : toPatD d = toStrD d := by
+  cases d with
+  | value v => cases v <;> simp_all [toPatD, toStrD, Data.patShape, unDouble_plain]
+  | _ => rfl
+
 theorem literal_spec (l : Literal) (h : okLit l) :
     Spec.literalValue l = some (literalValue l) ∧ (literalValue l).isScalar = true := by
   cases l <;> simp_all [Spec.literalValue, literalValue, Json.isScalar, okLit]
